@@ -120,7 +120,11 @@ func c19Exec(x *Ctx) {
 func c19Ufs(x *Ctx) {
 	c := x.C
 	iounit := uint32(c.cfg("iounit"))
-	u := NewUfsSys(x, iounit+24, true, int(c.cfg("maxpend")), int(c.cfg("debug")))
+	srvMsize := iounit + 24
+	if c.Seed%3 == 0 {
+		srvMsize = 200 // the server settles for less than the clients propose
+	}
+	u := NewUfsSys(x, srvMsize, true, int(c.cfg("maxpend")), int(c.cfg("debug")))
 	if u == nil {
 		return
 	}
@@ -247,7 +251,11 @@ func c19Clnt(x *Ctx) {
 	}
 	cs, cc := rt.NewPipePair(0, "srv", "clnt")
 	cc.In.Seg, cs.In.Seg = int(c.cfg("seg")), int(c.cfg("seg"))
-	peer := NewSrvPeer(x, cs, msize, c.cfg("dotu") != 0)
+	smsize := msize
+	if c.Seed%3 == 0 {
+		smsize = msize / 2 // the server settles for less than the client proposed
+	}
+	peer := NewSrvPeer(x, cs, smsize, c.cfg("dotu") != 0)
 	peer.NoDupCheck = true
 	holdpct := int(c.cfg("holdpct"))
 	peer.Handle = func(p *SrvPeer, r *PReq) {
